@@ -11,6 +11,8 @@ V = Path(__file__).resolve().parent.parent
 sys.path.insert(0, str(V / "tools"))
 sys.path.insert(0, str(V))
 
+# properties whose check has been integrated (runs clean on the current tree); others stay under not_applicable
+READY = ["C01", "C02", "C03", "C09", "C12", "C15", "C16", "C17", "C18", "C19", "C20"]
 NOT_YET = {}
 DEFAULT_REASON = "check not built yet (work in progress; DESIGN.md section 8 gives the build order)"
 
@@ -21,7 +23,7 @@ def main():
     for p in props:
         pid = p["id"]
         meta = None
-        if (V / "checks" / (pid + ".py")).exists():
+        if pid in READY and (V / "checks" / (pid + ".py")).exists():
             try:
                 meta = getattr(importlib.import_module("checks." + pid), "META", None)
             except Exception as e:  # a broken module must not take the manifest down
